@@ -260,6 +260,14 @@ def wide_pairs(rnd):
             two = head + broken % var + '    def g(): pass\n    use(g)\n'
             tail = 'f(use)\n' if head.startswith('def') else ''
             out.append((one + tail, two + tail, 'decorator-expression-below-its-at-%d' % k))
+    # comments inside a bracketed except clause that mention the handler's variable (and other identifiers) as whole words
+    for var in ('err', 'e'):
+        one = 'try:\n    pass\nexcept (OSError, ValueError) as %s:\n    use(%s)\nexcept (KeyError) as %s:\n    pass\n' % (var, var, var)
+        two = ('try:\n    pass\nexcept (OSError,  # %s is dropped, as %s\n        ValueError) as %s:  # %s\n    use(%s)\n'
+               'except (  # as %s :\n KeyError) as %s:\n    pass\n' % (var, var, var, var, var, var, var))
+        out.append((one, two, 'comment-names-the-except-variable'))
+        out.append(('def f():\n' + ''.join('    ' + l + '\n' for l in one.split('\n') if l), 'def f():\n' + ''.join('    ' + l + '\n' for l in two.split('\n') if l),
+                    'comment-names-the-except-variable-in-function'))
     return out
 
 
